@@ -20,7 +20,11 @@ import itertools
 RULE = ("suite A: every history of exactly L events over {post p v (p registered, v in 3 values), start, stop, "
         "takeover p, release} for 1, 2 and 3 protocols (L per tier), loop drained after every event; suite B: the "
         "same for Volume / OutputDevices / KeyboardFocus dispatches from two protocols (+ Keyboard takeover/release); "
-        "suite C: seeded random histories mixing everything, registered sets drawn from the 5 protocols, half of them "
+        "suite D: for every Playing domain (each constructor field varied alone over three values, once without and once "
+        "with an explicit hash shared by the three states; hash alone; colliding calculated hashes; unset/empty; mixed) "
+        "every short post sequence; suite E: user listeners (push / volume / output devices / focus) that raise on their "
+        "k-th call, k = 1..3, after recording it, exhaustive short histories per kind; suite A rotates through all Playing "
+        "domains; suite C: seeded random histories mixing everything (random domain, 40 % with raising listeners), registered sets drawn from the 5 protocols, half of them "
         "with drains only at explicit points; plus fixed witnesses. non-trivial = at least one listener call was "
         "delivered AND at least one produced state/value was suppressed (duplicate, not serving, stopped, unchanged); "
         "distinct = (mode, registered sets, Playing field, event list)")
@@ -30,7 +34,14 @@ ASSUMPTIONS = [
     "At finer granularity (mode U) everything except 'nothing after stop()' still holds; a play status already queued "
     "with call_soon when stop() is called IS delivered afterwards on the real code (theorem stop_undrained_delivers, "
     "replayed each run and recorded under notes.undrained_post_then_stop) — not counted as a violation",
-    "the user's listener objects stay alive (StateProducer keeps weak references) and only record",
+    "the user's listener objects stay alive (StateProducer keeps weak references); they record every call and, when "
+    "scripted, raise on their k-th call after recording it — the exception goes to the loop's exception handler and, "
+    "as on the pinned code (value stored / _previous_state set before the listener is called), changes nothing in the "
+    "model state; later notifications must still be correct",
+    "at the property's granularity the oracle also demands delivery: a state differing (in any field, decided by the "
+    "harness's own value index, not by Playing.__eq__) from the one the serving, started updater produced before must "
+    "reach the user; a dispatched volume / device list (focus: from the Keyboard-serving protocol) differing from the "
+    "last notified value must be notified (Lean: drained_post_exact, drained_change_exact)",
     "'differs from the status previously delivered by that updater' is read as: differs from the state that updater "
     "produced immediately before (what post_update compares with); 'correct old value' as: the previous notification's "
     "new value (initially 0.0 / [] / Unknown)",
@@ -38,7 +49,6 @@ ASSUMPTIONS = [
 TRUSTED = ["harness/c10.py: minimal AbstractPushUpdater subclass, recording listeners, event executor",
            "harness.core.vloop virtual-time loop (ready queue untouched)"]
 
-PLAYING_FIELDS = ["title", "device_state", "position", "artist", "repeat"]
 MASKS = {0: (False, False), 1: (True, False), 2: (False, True), 3: (True, True)}
 
 
@@ -95,30 +105,71 @@ class _Env:
         self.volumes = [0.0, 30.0, 60.0]
         self.focus = [const.KeyboardFocusState.Unknown, const.KeyboardFocusState.Unfocused,
                       const.KeyboardFocusState.Focused]
+        self._build_domains()
 
-    def playing(self, field, v):
-        i, c = self.interface, self.const
-        if field == "title":
-            return i.Playing(title="ABC"[v], artist="x")
-        if field == "device_state":
-            return i.Playing(device_state=[c.DeviceState.Idle, c.DeviceState.Playing, c.DeviceState.Paused][v], title="t")
-        if field == "position":
-            return i.Playing(title="t", total_time=100, position=[0, 10, 20][v])
-        if field == "artist":
-            return i.Playing(title="t", artist=[None, "a", "b"][v])
-        return i.Playing(title="t", repeat=[c.RepeatState.Off, c.RepeatState.Track, c.RepeatState.All][v])
+    # -- Playing value domains ---------------------------------------------------------------
+    def _build_domains(self):
+        """Every constructor field of Playing varied on its own (three values), once without and
+        once with an explicit hash shared by the three states; states equal in everything but
+        the hash; states whose calculated hashes collide; a mixed domain.  Built from the real
+        constructor signature, so a new field is picked up (or reported as skipped)."""
+        import enum
+        import inspect
+        import typing
 
-    def playing_val(self, field, obj):
-        c = self.const
+        playing = self.interface.Playing
+        base = {"title": "t", "artist": "a", "album": "b", "total_time": 1000}
+        domains, skipped = {}, []
         try:
-            x = getattr(obj, field)
-            dom = {"title": list("ABC"),
-                   "device_state": [c.DeviceState.Idle, c.DeviceState.Playing, c.DeviceState.Paused],
-                   "position": [0, 10, 20], "artist": [None, "a", "b"],
-                   "repeat": [c.RepeatState.Off, c.RepeatState.Track, c.RepeatState.All]}[field]
-            return dom.index(x)
+            hints = typing.get_type_hints(playing.__init__)
         except Exception:
-            return "?"
+            hints = {}
+        for name in inspect.signature(playing.__init__).parameters:
+            if name == "self":
+                continue
+            ann = hints.get(name)
+            args = [x for x in typing.get_args(ann) if x is not type(None)] or [ann]
+            typ = args[0]
+            if isinstance(typ, type) and issubclass(typ, enum.Enum):
+                pool = list(typ)[:3]
+            elif typ is str:
+                pool = [f"{name}-0", f"{name}-1", f"{name}-2"]
+            elif typ is int:
+                pool = [100, 200, 300] if name == "total_time" else [5, 10, 20]
+            else:
+                skipped.append(name)
+                continue
+            if len(pool) < 3:
+                skipped.append(name)
+                continue
+            domains[name] = [dict(base, **{name: x}) for x in pool]
+            if name != "hash":
+                domains[name + "+hash"] = [dict(base, hash="shared-hash", **{name: x}) for x in pool]
+        domains["collide"] = [dict(title="ab", artist="c", album="d"), dict(title="a", artist="bc", album="d"),
+                              dict(title="a", artist="b", album="cd")]
+        domains["unset"] = [dict(), dict(title=""), dict(title="t")]
+        if all(k in domains for k in ("device_state", "position", "repeat")):
+            domains["mixed"] = [dict(domains["device_state"][0], position=5), dict(domains["device_state"][1], position=5, genre="g"),
+                                dict(domains["repeat"][2], hash="shared-hash")]
+        # keep only domains whose three states really differ in a public property (no use of __eq__)
+        props = list(getattr(playing, "_PROPERTIES", [])) or [n for n in inspect.signature(playing.__init__).parameters if n != "self"]
+        good = {}
+        for name, kws in domains.items():
+            try:
+                views = [tuple(repr(getattr(playing(**kw), pr, None)) for pr in props) for kw in kws]
+            except Exception:
+                skipped.append(name)
+                continue
+            if len(set(views)) == 3:
+                good[name] = kws
+            else:
+                skipped.append(name)
+        self.domains, self.domains_skipped = good, skipped
+        self.domain_names = sorted(good)
+
+    def playing(self, domain, v):
+        kws = self.domains.get(domain) or self.domains[self.domain_names[0]]
+        return self.interface.Playing(**kws[v])
 
     def devices(self, v):
         od = self.interface.OutputDevice
@@ -143,36 +194,60 @@ class _SessionManager:
         return None
 
 
+class ListenerFault(RuntimeError):
+    """Raised by the recording listener on its k-th call (after recording it)."""
+
+
 class _Listener:
-    """PushListener + AudioListener + KeyboardListener that only records."""
+    """PushListener + AudioListener + KeyboardListener that records every call and, if asked
+    to, raises on its k-th call of a kind (the call is recorded first)."""
 
     def __init__(self, world):
         self.w = world
+        self.calls = {}
+
+    def _rec(self, kind, x, y):
+        w = self.w
+        w.log.append((w.idx, kind, x, y))
+        n = self.calls[kind] = self.calls.get(kind, 0) + 1
+        if w.raises.get(kind) == n:
+            w.faults += 1
+            raise ListenerFault(f"{kind} listener fails on call {n}")
 
     def playstatus_update(self, updater, playstatus):
         w = self.w
         p = next((i for i, u in w.updaters.items() if u is updater), "?")
-        w.log.append((w.idx, "P", p, w.env.playing_val(w.field, playstatus)))
+        self._rec("P", p, w.posted.get(id(playstatus), "?"))
 
     def playstatus_error(self, updater, exception):
-        self.w.log.append((self.w.idx, "E", "?", "?"))
+        self._rec("E", "?", "?")
 
     def volume_update(self, old_level, new_level):
         w = self.w
-        w.log.append((w.idx, "V", w.env.index_of(w.env.volumes, old_level), w.env.index_of(w.env.volumes, new_level)))
+        self._rec("V", w.env.index_of(w.env.volumes, old_level), w.env.index_of(w.env.volumes, new_level))
 
     def outputdevices_update(self, old_devices, new_devices):
         w = self.w
-        w.log.append((w.idx, "O", w.env.devices_val(old_devices), w.env.devices_val(new_devices)))
+        self._rec("O", w.env.devices_val(old_devices), w.env.devices_val(new_devices))
 
     def focusstate_update(self, old_state, new_state):
         w = self.w
-        w.log.append((w.idx, "F", w.env.index_of(w.env.focus, old_state), w.env.index_of(w.env.focus, new_state)))
+        self._rec("F", w.env.index_of(w.env.focus, old_state), w.env.index_of(w.env.focus, new_state))
+
+
+def parse_raises(s):
+    """'P2,V1' -> {'P': 2, 'V': 1}: the listener of that kind raises on its k-th call."""
+    return {x[0]: int(x[1:]) for x in s.split(",") if x} if s else {}
 
 
 class _World:
-    def __init__(self, env, field):
-        self.env, self.field = env, field
+    def __init__(self, env, domain, raises):
+        self.env, self.domain = env, domain
+        self.raises = parse_raises(raises)
+        self.faults = 0
+        self.loop_errors = []
+        self.posted = {}
+        self.keep = []
         self.idx = 0
         self.log = []
         self.refused = []
@@ -191,8 +266,18 @@ async def _settle():
 
 
 async def _run_case(env, case):
-    mode, reg_p, reg_k, field, toks = case
-    w = _World(env, field)
+    mode, reg_p, reg_k, domain, toks, raises = case
+    w = _World(env, domain, raises)
+    loop = asyncio.get_running_loop()
+
+    def _on_loop_error(_loop, context):
+        # what asyncio does with an exception escaping a call_soon callback: hand it to the
+        # loop's exception handler.  Our own listener faults are expected; anything else is recorded.
+        exc = context.get("exception")
+        if not isinstance(exc, ListenerFault):
+            w.loop_errors.append(type(exc).__name__ if exc is not None else str(context.get("message"))[:60])
+
+    loop.set_exception_handler(_on_loop_error)
     core = env.CoreStateDispatcher()
     atv = env.facade.FacadeAppleTV(env.conf, _SessionManager(), core, env.Settings())
     for i, proto in enumerate(env.priorities):
@@ -221,7 +306,10 @@ async def _run_case(env, case):
         f = tok.split(".")
         try:
             if f[0] == "p":
-                w.updaters[int(f[1])].post_update(env.playing(field, int(f[2])))
+                obj = env.playing(domain, int(f[2]))      # a fresh object for every post
+                w.keep.append(obj)
+                w.posted[id(obj)] = int(f[2])
+                w.updaters[int(f[1])].post_update(obj)
             elif f[0] == "s":
                 push.start()
             elif f[0] == "t":
@@ -260,8 +348,8 @@ async def _run_case(env, case):
            env.index_of(env.focus, getattr(kbd, "_focus_state", None)) if hasattr(kbd, "_focus_state") else None)
     w.idx = len(toks)
     await _settle()   # U-mode histories end with `d`; anything arriving now is recorded past the end
-    return {"log": w.log, "refused": w.refused, "errors": w.errors, "main_p": main_p, "main_k": main_k, "cur": cur,
-            "keep": (atv, listener)}
+    return {"log": w.log, "refused": w.refused, "errors": w.errors + [(-2, "loop:" + e) for e in w.loop_errors],
+            "main_p": main_p, "main_k": main_k, "cur": cur, "faults": w.faults, "keep": (atv, listener)}
 
 
 def execute(env, cases):
@@ -275,7 +363,7 @@ def execute(env, cases):
                 r.pop("keep", None)
             except Exception as exc:
                 r = {"log": [], "refused": [], "errors": [(-1, type(exc).__name__ + ":" + str(exc)[:80])],
-                     "main_p": None, "main_k": None, "cur": (None, None, None)}
+                     "main_p": None, "main_k": None, "cur": (None, None, None), "faults": 0}
             out.append(r)
         return out
 
@@ -288,7 +376,7 @@ def execute(env, cases):
 
 def oracle(case, res):
     """Returns (problems, delivered, suppressed).  problems: list of (sig, text)."""
-    mode, reg_p, reg_k, _field, toks = case
+    mode, reg_p, reg_k, _domain, toks, _raises = case
     problems = []
     by_idx = {}
     for ent in res["log"]:
@@ -298,6 +386,7 @@ def oracle(case, res):
     hist = {}               # updater -> produced states
     eff = []                # (event idx, p, v, consumed?) posts the property allows to be delivered
     holder = None           # takeover holder of the PushUpdater interface
+    holder_k = None         # takeover holder of the Keyboard interface
     handles = []
     dispatched = {"V": [], "O": [], "F": []}    # (event idx, value, consumed?)
     expected_old = {"V": 0, "O": 0, "F": 0}
@@ -307,6 +396,11 @@ def oracle(case, res):
         if holder is not None and holder in reg_p:
             return holder
         return min(reg_p) if reg_p else None
+
+    def serving_k():
+        if holder_k is not None and holder_k in reg_k:
+            return holder_k
+        return min(reg_k) if reg_k else None
 
     for idx in range(len(toks) + 1):
         tok = toks[idx] if idx < len(toks) else None
@@ -327,14 +421,34 @@ def oracle(case, res):
                 handles.append((a, b))
                 if a:
                     holder = int(f[1])
+                if b:
+                    holder_k = int(f[1])
         elif f[0] == "r":
             if handles:
-                a, _b = handles.pop()
+                a, b = handles.pop()
                 if a:
                     holder = None
+                if b:
+                    holder_k = None
         elif f[0] in "vof":
             dispatched[f[0].upper()].append([idx, int(f[2]), False])
         got = by_idx.get(idx, [])
+        if mode == "D" and f[0] == "p":
+            # a state that differs from the one this updater produced before, produced while started by
+            # the serving protocol, must reach the user (during this event, at this granularity)
+            ent = eff[-1]
+            if not ent[3] and ent[1] == serving() and ent[1] in reg_p and not any(g[1] == "P" for g in got):
+                problems.append(("play:missing", f"event {idx} ({tok}): updater {ent[1]} serves, is started and produced a state "
+                                 "different from its previous one, but the user's listener was not notified"))
+        if mode == "D" and f[0] in "vof":
+            kind = f[0].upper()
+            v = int(f[2])
+            if v != expected_old[kind] and not any(g[1] == kind for g in got) and (
+                    kind != "F" or int(f[1]) == serving_k()):
+                name = {"V": "volume", "O": "outputdevices", "F": "focus"}[kind]
+                problems.append((f"{name}:missing", f"event {idx} ({tok}): value changed from {expected_old[kind]} to {v} "
+                                 "but the listener was not called"))
+                expected_old[kind] = v if kind != "F" else expected_old[kind]
         if idx == len(toks) and got:
             problems.append(("late", "listener called after the final drain: %r" % (got,)))
         for (_i, kind, x, y) in got:
@@ -400,35 +514,82 @@ def oracle(case, res):
 # generators
 # ------------------------------------------------------------------------------------------
 
-def suite_a(ctx):
-    """Exhaustive push histories at the property's granularity."""
+def suite_a(ctx, env):
+    """Exhaustive push histories at the property's granularity (the Playing domain rotates
+    through all domains from history to history)."""
     plan = [([0], ctx.scale(5, 6)), ([0, 4], ctx.scale(4, 5)), ([1, 2, 4], ctx.scale(3, 4))]
-    for k, (reg, length) in enumerate(plan):
+    names = env.domain_names
+    n = 0
+    for reg, length in plan:
         alpha = [f"p.{p}.{v}" for p in reg for v in range(3)] + ["s", "t", "r"] + [f"k.{p}.1" for p in reg]
-        field = PLAYING_FIELDS[k % len(PLAYING_FIELDS)]
         for t in itertools.product(alpha, repeat=length):
-            yield ("D", reg, reg, field, list(t))
+            n += 1
+            yield ("D", reg, reg, names[n % len(names)], list(t), "")
 
 
-def suite_b(ctx):
+def suite_b(ctx, env):
     """Exhaustive volume / output-device / focus histories at the property's granularity."""
     length = ctx.scale(4, 5)
+    dom = env.domain_names[0]
     for kind in "vo":
         alpha = [f"{kind}.{p}.{v}" for p in (0, 4) for v in range(3)]
         for t in itertools.product(alpha, repeat=length):
-            yield ("D", [0], [0, 4], "title", list(t))
+            yield ("D", [0], [0, 4], dom, list(t), "")
     alpha = [f"f.{p}.{v}" for p in (0, 4) for v in range(3)] + ["k.0.2", "k.4.2", "r"]
     for reg_k in ([0, 4], [0]):
         for t in itertools.product(alpha, repeat=length):
-            yield ("D", [0], reg_k, "title", list(t))
+            yield ("D", [0], reg_k, dom, list(t), "")
 
 
-def random_case(rng, maxlen):
+def suite_d(ctx, env):
+    """Every Playing domain (each field alone, with and without a shared explicit hash, hash
+    alone, colliding calculated hashes, ...): start, then every sequence of `length` posts over
+    the three states by one updater; and the same from the second of two protocols."""
+    length = ctx.scale(3, 4)
+    for dom in env.domain_names:
+        for t in itertools.product(range(3), repeat=length):
+            yield ("D", [0], [], dom, ["s"] + [f"p.0.{v}" for v in t], "")
+        for t in itertools.product(range(3), repeat=2):
+            yield ("D", [1, 3], [], dom, ["s", "k.3.1"] + [f"p.3.{v}" for v in t] + ["r", "p.1.0", "p.1.1"], "")
+            yield ("U", [2], [], dom, ["s"] + [f"p.2.{v}" for v in t] + ["d"], "")
+
+
+def suite_e(ctx, env):
+    """User listeners that raise on their k-th call (the call is recorded first): every later
+    notification must still be correct.  Exhaustive short histories per listener kind."""
+    length = ctx.scale(4, 5)
+    doms = env.domain_names
+    n = 0
+    for k in (1, 2, 3):
+        for kind in "vo":
+            for t in itertools.product(range(3), repeat=length):
+                yield ("D", [0], [0], doms[0], [f"{kind}.0.{v}" for v in t], f"{kind.upper()}{k}")
+        for t in itertools.product(range(3), repeat=length):
+            yield ("D", [0], [2], doms[0], [f"f.2.{v}" for v in t], f"F{k}")
+        for t in itertools.product(range(3), repeat=length):
+            n += 1
+            yield ("D", [0, 4], [], doms[n % len(doms)], ["s"] + [f"p.0.{v}" for v in t], f"P{k}")
+        # all listeners faulty at once, values interleaved
+        for t in itertools.product(range(1, 3), repeat=3):
+            toks = ["s"]
+            for j, v in enumerate(t):
+                toks += [f"v.0.{v}", f"o.4.{v}", f"f.0.{v}", f"p.0.{v}", f"v.4.{(v + j) % 3}", f"p.0.{(v + 1) % 3}"]
+            yield ("D", [0], [0], doms[(n + k) % len(doms)], toks, f"P{k},V{k},O{k},F{k}")
+
+
+def random_raises(rng):
+    if rng.random() < 0.6:
+        return ""
+    kinds = rng.sample("PVOF", rng.choice([1, 1, 2, 4]))
+    return ",".join(f"{k}{rng.randint(1, 3)}" for k in sorted(kinds))
+
+
+def random_case(rng, maxlen, env):
     mode = "D" if rng.random() < 0.5 else "U"
     n_p = rng.choice([1, 2, 2, 3])
     reg_p = sorted(rng.sample(range(5), n_p))
     reg_k = sorted(rng.sample(range(5), rng.choice([0, 1, 2, 2, 3])))
-    field = rng.choice(PLAYING_FIELDS)
+    domain = rng.choice(env.domain_names)
     n = rng.randint(4, maxlen)
     toks = ["s"] if rng.random() < 0.7 else []
     focus_on = rng.random() < 0.5      # half of the histories concentrate on play statuses
@@ -454,25 +615,27 @@ def random_case(rng, maxlen):
             toks.append("d")
     if mode == "U":
         toks.append("d")
-    return (mode, reg_p, reg_k, field, toks)
+    return (mode, reg_p, reg_k, domain, toks, random_raises(rng))
 
 
 WITNESSES = [
     # Lean `demo` (Props/C10.lean) at both granularities
-    ("U", [0, 4], [0], "title", "s p.0.1 d p.0.1 d k.4.1 p.0.2 p.4.2 d r p.0.1 d t p.0.2 d s p.0.1 d".split()),
-    ("D", [0, 4], [0], "device_state", "s p.0.1 p.0.1 k.4.1 p.0.2 p.4.2 r p.0.1 t p.0.2 s p.0.1".split()),
-    # stop_undrained_delivers: must stay LAST-but-listed; looked up by name below
-    ("U", [0], [], "title", "s p.0.1 t d".split()),
-    ("D", [0], [0], "title", "v.0.1 v.4.1 v.4.2 v.0.0 f.4.1 f.0.2 o.0.2 o.0.2 o.4.1".split()),
+    ("U", [0, 4], [0], "title", "s p.0.1 d p.0.1 d k.4.1 p.0.2 p.4.2 d r p.0.1 d t p.0.2 d s p.0.1 d".split(), ""),
+    ("D", [0, 4], [0], "device_state", "s p.0.1 p.0.1 k.4.1 p.0.2 p.4.2 r p.0.1 t p.0.2 s p.0.1".split(), ""),
+    # stop_undrained_delivers
+    ("U", [0], [], "title", "s p.0.1 t d".split(), ""),
+    ("D", [0], [0], "title", "v.0.1 v.4.1 v.4.2 v.0.0 f.4.1 f.0.2 o.0.2 o.0.2 o.4.1".split(), ""),
     # the same status twice in a row from one updater, across a suppressed intermediate state
-    ("D", [0, 4], [], "title", "s p.0.1 k.4.1 p.0.2 r p.0.1".split()),
+    ("D", [0, 4], [], "title", "s p.0.1 k.4.1 p.0.2 r p.0.1".split(), ""),
+    # every listener raises on its first call; later notifications unaffected
+    ("D", [0], [0], "title+hash", "s p.0.1 p.0.2 v.0.1 v.0.1 v.0.2 o.0.1 o.0.2 f.0.1 f.0.2".split(), "P1,V1,O1,F1"),
 ]
 UNDRAINED = WITNESSES[2]
 REPEAT = WITNESSES[4]
 
 
 def line_for(case):
-    mode, reg_p, reg_k, _field, toks = case
+    mode, reg_p, reg_k, _domain, toks, _raises = case
     csv = lambda l: ",".join(map(str, l)) if l else "-"
     return f"run {mode} {csv(reg_p)} {csv(reg_k)} " + " ".join(toks)
 
@@ -508,12 +671,14 @@ def compare(ctx, case, res, ans):
 
 
 def case_json(case):
-    mode, reg_p, reg_k, field, toks = case
-    return {"mode": mode, "regP": list(reg_p), "regK": list(reg_k), "field": field, "events": " ".join(toks)}
+    mode, reg_p, reg_k, domain, toks, raises = case
+    return {"mode": mode, "regP": list(reg_p), "regK": list(reg_k), "domain": domain, "events": " ".join(toks),
+            "listener_raises_on_call": raises}
 
 
 def case_from_json(j):
-    return (j["mode"], list(j["regP"]), list(j["regK"]), j["field"], j["events"].split())
+    return (j["mode"], list(j["regP"]), list(j["regK"]), j.get("domain", j.get("field", "title")), j["events"].split(),
+            j.get("listener_raises_on_call", ""))
 
 
 def evaluate(ctx, env, cases, suite):
@@ -526,6 +691,10 @@ def evaluate(ctx, env, cases, suite):
         ctx.note("len:%02d" % len(case[4]))
         ctx.note("protocols:%d" % len(case[1]))
         ctx.note("delivered:%s" % ("0" if delivered == 0 else "1-2" if delivered < 3 else "3+"))
+        ctx.note("domain:" + case[3])
+        if case[5]:
+            ctx.note("listener_faults_scripted")
+            ctx.note("listener_faults_raised", res.get("faults", 0))
         ctx.case(case_json(case), delivered > 0 and suppressed > 0,
                  sample=dict(case_json(case), received=[list(e) for e in res["log"]]) if suite != "A" or delivered > 2 else None)
         compare(ctx, case, res, ans)
@@ -568,15 +737,19 @@ def run(ctx, only=None):
         "start, P0 posts 1, takeover by P4, P0 posts 2 (suppressed), release, P0 posts 1: the user's listener received %r "
         "— the same status twice in a row from one updater; allowed under the reading 'differs from the state that "
         "updater produced before' (see assumptions), not counted as a violation" % [list(e) for e in res["log"]])
-    for batch in chunks(suite_a(ctx), 20000):
+    ctx.notes["playing_domains"] = "%d domains: %s; skipped: %s" % (
+        len(env.domain_names), " ".join(env.domain_names), " ".join(env.domains_skipped) or "none")
+    evaluate(ctx, env, list(suite_d(ctx, env)), "D")
+    evaluate(ctx, env, list(suite_e(ctx, env)), "E")
+    for batch in chunks(suite_a(ctx, env), 20000):
         evaluate(ctx, env, batch, "A")
-    for batch in chunks(suite_b(ctx), 20000):
+    for batch in chunks(suite_b(ctx, env), 20000):
         evaluate(ctx, env, batch, "B")
-    ctx.exhaustive = False      # suites A/B are exhaustive for their bounds, suite C is sampled
+    ctx.exhaustive = False      # suites A/B/D/E are exhaustive for their bounds, suite C is sampled
     rng = ctx.rng.fork("suite-c")
     n = ctx.scale(8000, 60000)
     maxlen = ctx.scale(10, 16)
-    for batch in chunks((random_case(rng, maxlen) for _ in range(n)), 20000):
+    for batch in chunks((random_case(rng, maxlen, env) for _ in range(n)), 20000):
         evaluate(ctx, env, batch, "C")
 
 
@@ -586,14 +759,16 @@ def widen(ctx):
     env = _Env()
     evaluate(ctx, env, WITNESSES, "witness")
     ctx.widened = False
-    a_cases = list(suite_a(ctx))
+    a_cases = list(suite_a(ctx, env))
     ctx.widened = True
+    evaluate(ctx, env, list(suite_d(ctx, env)), "D")
+    evaluate(ctx, env, list(suite_e(ctx, env)), "E")
     for batch in chunks(a_cases, 20000):
         evaluate(ctx, env, batch, "A")
-    for batch in chunks(suite_b(ctx), 20000):
+    for batch in chunks(suite_b(ctx, env), 20000):
         evaluate(ctx, env, batch, "B")
     rng = ctx.rng.fork("suite-c-widened")
-    for batch in chunks((random_case(rng, 16) for _ in range(40000)), 20000):
+    for batch in chunks((random_case(rng, 16, env) for _ in range(40000)), 20000):
         evaluate(ctx, env, batch, "C")
 
 
@@ -609,11 +784,11 @@ def replay(ctx, failure):
 def shrink(ctx, failure):
     """Greedy event removal while the same oracle failure persists on the real code."""
     env = _Env()
-    mode, reg_p, reg_k, field, toks = case_from_json(failure["case"])
+    mode, reg_p, reg_k, field, toks, raises = case_from_json(failure["case"])
     sig = failure["sig"]
 
-    def fails(ts):
-        case = (mode, reg_p, reg_k, field, ts)
+    def fails(ts, rs=None):
+        case = (mode, reg_p, reg_k, field, ts, raises if rs is None else rs)
         res = execute(env, [case])[0]
         probs, _d, _s = oracle(case, res)
         hit = [t for s, t in probs if s == sig]
@@ -623,6 +798,14 @@ def shrink(ctx, failure):
     best = fails(cur)
     if best is None:
         return failure
+    # drop scripted listener faults that are not needed for the failure
+    parts = [x for x in raises.split(",") if x]
+    for x in list(parts):
+        cand = [y for y in parts if y != x]
+        r = fails(cur, ",".join(cand))
+        if r is not None:
+            parts, best = cand, r
+    raises = ",".join(parts)
     changed = True
     while changed:
         changed = False
@@ -635,6 +818,6 @@ def shrink(ctx, failure):
                 cur, best, changed = cand, r, True
                 break
     text, res = best
-    return {"sig": sig, "case": case_json((mode, reg_p, reg_k, field, cur)),
+    return {"sig": sig, "case": case_json((mode, reg_p, reg_k, field, cur, raises)),
             "observed": {"received": [list(e) for e in res["log"]], "refused": res["refused"], "errors": res["errors"]},
             "required": "property C10", "what": text}
